@@ -123,6 +123,25 @@ func (w *World) arrayIterProbe(a *atree.Array, rng *rand.Rand) ProbeObs {
 			p.Ranges = append(p.Ranges, obs("ReadOnlyRangeIterator", err, w.idsOfValues(vs), pr[0], pr[1]))
 		}
 	}
+	// early termination: a callback that stops after k elements must have seen exactly the first k (recorded as the range [0, k));
+	// the mutable range iterator object over [s, e)
+	if n > 0 {
+		for _, k := range []int{1, (n + 1) / 2, n} {
+			for fi, f := range []func(atree.ArrayIterationFunc) error{a.IterateReadOnly, a.Iterate} {
+				var got []atree.Value
+				err := f(func(v atree.Value) (bool, error) {
+					got = append(got, v)
+					return len(got) < k, nil
+				})
+				p.Ranges = append(p.Ranges, obs([]string{"IterateReadOnly(stop)", "Iterate(stop)"}[fi], err, w.idsOfValues(got), 0, k))
+			}
+		}
+		s, e := n/3, n-n/4
+		if s <= e {
+			vs, err = drainArray(a.RangeIterator(uint64(s), uint64(e)))
+			p.Ranges = append(p.Ranges, obs("RangeIterator", err, w.idsOfValues(vs), s, e))
+		}
+	}
 	return p
 }
 
